@@ -439,7 +439,7 @@ def option_events(M, seed):
             add(1, k, {k: V["above_max"]}, False, f"{k}:above_max:num")
             add(1, k, {k: V["above_max"]}, True, f"{k}:above_max:num")
             add(1, k, {k: V["below_min"]}, True, f"{k}:below_min:num")
-            add(2, k, {k: V["below_min"]}, False, f"{k}:below_min:num")
+            add(1, k, {k: V["below_min"]}, False, f"{k}:below_min:num")  # (core: also under an inherited window, at depth 2)
             add(2, k, {k: V["at_max"]}, False, f"{k}:at_max:num")
             for vc in ("far_below", "far_above"):
                 add(2, k, {k: V[vc]}, False, f"{k}:{vc}:num")
@@ -718,6 +718,7 @@ def g_rounds(M, P, o, relaxed):
             windows.append((nm, p_mx))
     elif mxv is not None:
         if p_mn and mxv < p_mn:
+            hard(mxv)  # the given value itself must lie inside the hard limits (strict: refused; relaxed: clamped first)
             extra.add("ValueError")
             windows.append((p_mn, hard(p_mn)))
         else:
